@@ -54,6 +54,8 @@ PROPS = [
     (["text='single q'"], {'text': 'single q'}),
     # braces delimit: quote characters at the edges of the label belong to the label
     (['text={r = 10"}'], {'text': 'r = 10"'}),
+    # an opening brace inside a braced label is a character like any other: the label ends at the first closing brace
+    (['text={a {b; c}'], {'text': 'a {b; c'}),
     (['text={"NGC 5194" core}', 'color=red'], {'text': '"NGC 5194" core', 'color': 'red'}),
     (["tag={5'}", "text={radius 5'}"], {'tags': ["5'"], 'text': "radius 5'"}),
     # only the newline (and ';') ends a DS9 line: other separator-like characters inside a label belong to the label
@@ -245,6 +247,9 @@ TOKENS = {
     'circle(12,22,4) # text={}': ('region', {'shape': 'circle', 'xy': (12.0, 22.0), 'sizes': [4.0], 'angle': None}),
     'vector(1,2,3,4)': ('skip', None),
     'foobar(1,2)': ('skip', None),
+    # tags: a region's own tags replace the global ones (like every other key), they are not added to them
+    'global tag={g1} tag={g2}': ('global', {'tags': ('g1', 'g2')}),
+    'circle(14,24,2) # tag={own}': ('region', {'shape': 'circle', 'xy': (14.0, 24.0), 'sizes': [2.0], 'angle': None, 'tags': ('own',)}),
 }
 TOKEN_NAMES = list(TOKENS)
 
@@ -263,7 +268,7 @@ def model_run(tokens):
         color = r.get('color', glob.get('color'))
         out.append({'shape': r['shape'], 'kind': 'pixel' if fr == 'image' else 'sky', 'frame': fr, 'coords': coords,
                     'sizes': list(r['sizes']), 'angle': r['angle'], 'include': r.get('include', True), 'color': color,
-                    'width': r.get('width', glob.get('width')), 'text_param': r.get('text')})
+                    'width': r.get('width', glob.get('width')), 'text_param': r.get('text'), 'tags_expected': r.get('tags', glob.get('tags'))})
     for t in tokens:
         kind, val = TOKENS[t] if t in TOKENS else ('region', None)
         if kind == 'frame':
@@ -326,6 +331,10 @@ def check_program(res, tokens, sep):
         if got != e['color']:
             res.violation(ID, 'program_state_leak', case, f'{text!r} region {k} ({e["shape"]}): colour expected {e["color"]!r} '
                           f'(global/composite/local precedence), got {got!r}', e['color'], {'got': got, 'text': text})
+        gt = r.meta.get('tag')
+        if tuple(gt or ()) != tuple(e.get('tags_expected') or ()):
+            res.violation(ID, 'program_state_leak', case, f'{text!r} region {k}: tags expected {list(e.get("tags_expected") or ())!r} (a region\'s own tags replace '
+                                                          f'the global ones), got {gt!r}', list(e.get('tags_expected') or ()), {'got': gt, 'text': text})
         if e['shape'] != 'text':
             gw = r.visual.get('linewidth')
             if gw != e['width']:
